@@ -50,6 +50,34 @@
 //!    diagnosed with "unknown property" and carries the property in the .ui;
 //!  * `c18-nolower` (oracle, the real binary with `--no-lowercase-file-name`): an accepted source `dir/X.qml` is
 //!    written to `dir/X.ui` and every `<customwidget>` header is `<Class>.h` in the original case.
+//!
+//! Added for chains of components (component -> component -> … -> Qt class):
+//!  * the "chain" family (`gen_chain_layout`, labels `chain`, `chain:len<k>`, `chain:within|across|mixed`,
+//!    `chain:end:widget|layout|action|object|unknown|cycle`, `chain:cyclelen<n>`, `chain:into-cycle`, `chain:prop:<p>`,
+//!    `chain:bad-prop:<p>`): chains of length 1..=4 in one directory, with every link in another directory (imported by
+//!    string under the spellings of `spell`; the using document imports the first directory only, deeper links resolve
+//!    through the imports of the component that names them) or mixed; a binding and children at every level; using
+//!    documents that instantiate every component as root and as child with bindings of properties of the class the chain
+//!    ends in (own and inherited), one property that class does not have, and a document that does not touch the chain;
+//!    the component files are sources too;
+//!  * the `(qt …)` table also summarises QVBoxLayout, QHBoxLayout and QAction (4th element `layout` / `action`); the
+//!    `widgets` of an answer list the root widget's `<widget>`, `<layout>` and `<action>` children in document order
+//!    (an `<action>` has no class: it is reported as QAction);
+//!  * `c18-judge` / `c18-judge-all` (oracle, in-process AND the real binary): what every source must come to is decided
+//!    from the layout and the real file system alone (`Judge`: a name is a Qt class if the file imports the Qt module, or
+//!    the component `<name>.qml` of a directory the file sees; a component is what its own root object is, seen from the
+//!    component's file; a chain ends in a Qt class, in a name that does not resolve, or in a cycle).  Demanded: exactly
+//!    the diagnostics the files call for — so a document in which everything resolves, every chain ends in a class of the
+//!    right kind (root: a widget; child: a widget, a layout or an action) and every bound property exists on the class
+//!    the chain ends in MUST be accepted, and a fault (unknown type, unknown property, a chain that ends in QObject, in
+//!    nothing or in a cycle, a non-widget root) must be diagnosed with its message and nothing else; every object of an
+//!    accepted document is in the `.ui` under its class with its binding; `<customwidgets>` = the components the
+//!    document instantiates, each once, `extends` = the root type written in the component's own file (the DIRECT super),
+//!    header by the file-name rule, ancestors that are not instantiated are not listed; the real binary writes the `.ui`
+//!    of exactly the good documents (same `<customwidgets>`) and exits with 1 iff a judged source is faulty, 0 if all are
+//!    good.  Where the reading of the files is not unambiguous (same name in two visible directories, a component called
+//!    like a Qt class, a file without root object, an unknown named module in a component) the document is not judged
+//!    (`c18-judge`: counted; `c18-judge-all`, used for the chain family and the corpus: a failure).
 use crate::env::{self, Mode};
 use crate::rng::Rng;
 use crate::sexp::{atom, boolean, list, node, st, Sexp};
@@ -82,20 +110,53 @@ const PROPS: [(&str, &str); 9] = [
     ("checkable", "true"),
     ("sizeGripEnabled", "true"),
 ];
+/// non-widget Qt classes the chain family ends in: layouts and the action class.  Measured like `QT_CLASSES`; their
+/// `(qt …)` entry carries a 4th element naming the kind (old three-element entries keep their meaning).
+const QT_EXTRA: [&str; 3] = ["QVBoxLayout", "QHBoxLayout", "QAction"];
+/// candidate bindings that exist on layouts only (never picked by the generic generator)
+const EXTRA_PROPS: [(&str, &str); 1] = [("spacing", "3")];
 const STEMS: [&str; 12] = ["A", "B", "C", "D", "E", "MyBox", "Panel", "SettingsForm", "QFrame", "Main", "Zed", "Item2"];
 const DIR_NAMES: [&str; 7] = ["a", "b", "common", "sub", "ui", "Deep", "x1"];
 
 static COUNTER: AtomicU64 = AtomicU64::new(0);
 
+/// one of the Qt classes the generators name (and the `(qt …)` table summarises)
+fn is_table_class(ty: &str) -> bool {
+    QT_CLASSES.contains(&ty) || QT_EXTRA.contains(&ty)
+}
+
 pub struct C18 {
     classes: Vec<metatype::Class>,
-    qt: Vec<(String, bool, Vec<String>)>,
+    qt: Vec<QtInfo>,
+    /// every class name of the real Qt module (a generated type of that name is judged by no file-system oracle)
+    qt_names: BTreeSet<String>,
     preflights: Mutex<HashMap<String, Arc<OnceLock<Result<Preflight, String>>>>>,
     /// runs of the real binary, keyed by layout + ORDERED source list + flags (the preflight run is one of them)
     cli_runs: Mutex<HashMap<String, Arc<OnceLock<CliOut>>>>,
+    /// in-process runs (populate_directories + uigen::build of every source), keyed by layout + ORDERED source list
+    real_runs: Mutex<HashMap<String, Arc<OnceLock<Result<RunOut, Sexp>>>>>,
 }
 
 type CliOut = (i32, BTreeMap<String, String>);
+
+/// what `UiObject::build` makes of an object of a class (measured: derives from QAction / QLayout / QWidget)
+#[derive(Clone, Copy, Debug, PartialEq, Eq)]
+enum Kind {
+    Widget,
+    Layout,
+    Action,
+    Other,
+}
+
+/// summary of one Qt class, measured on the real type map
+#[derive(Clone, Debug)]
+struct QtInfo {
+    name: String,
+    is_widget: bool,
+    kind: Kind,
+    /// the candidate property names (`PROPS`, `EXTRA_PROPS`) `Class::get_property` resolves on the class
+    props: Vec<String>,
+}
 
 /// what the real binary logged while discovering directories for one (layout, source set)
 #[derive(Clone, Debug)]
@@ -111,7 +172,8 @@ impl C18 {
     pub fn new() -> Self {
         let mut classes = env::load_qt_classes();
         metatype_tweak::apply_all(&mut classes);
-        let mut me = C18 { classes, qt: vec![], preflights: Mutex::new(HashMap::new()), cli_runs: Mutex::new(HashMap::new()) };
+        let qt_names: BTreeSet<String> = classes.iter().map(|c| c.class_name.clone()).collect();
+        let mut me = C18 { classes, qt: vec![], qt_names, preflights: Mutex::new(HashMap::new()), cli_runs: Mutex::new(HashMap::new()), real_runs: Mutex::new(HashMap::new()) };
         // the Qt side of the model is MEASURED on the real type map
         let tm = me.fresh_type_map();
         let module = tm.get_module(ModuleId::Named(QT_MODULE)).unwrap();
@@ -120,12 +182,16 @@ impl C18 {
             other => panic!("Qt class {n} not found: {other:?}"),
         };
         let widget = class_of("QWidget");
+        let layout = class_of("QLayout");
+        let action = class_of("QAction");
         me.qt = QT_CLASSES
             .iter()
+            .chain(QT_EXTRA.iter())
             .map(|n| {
                 let c = class_of(n);
                 let props = PROPS
                     .iter()
+                    .chain(EXTRA_PROPS.iter())
                     .filter(|(p, _)| match c.get_property(p) {
                         // the model only knows "found": every candidate must be writable where it exists
                         Some(Ok(d)) => {
@@ -137,7 +203,19 @@ impl C18 {
                     })
                     .map(|(p, _)| p.to_string())
                     .collect();
-                (n.to_string(), c.is_derived_from(&widget), props)
+                // the order of the tests is the order of `UiObject::build`
+                let kind = if c.is_derived_from(&action) {
+                    Kind::Action
+                } else if c.is_derived_from(&layout) {
+                    Kind::Layout
+                } else if c.is_derived_from(&widget) {
+                    Kind::Widget
+                } else {
+                    Kind::Other
+                };
+                // the generic generator's classes are plain widgets (or QObject): the model of old requests relies on it
+                assert!(!QT_CLASSES.contains(n) || matches!(kind, Kind::Widget | Kind::Other), "{n}: unexpected kind {kind:?}");
+                QtInfo { name: n.to_string(), is_widget: c.is_derived_from(&widget), kind, props }
             })
             .collect();
         drop(module);
@@ -158,7 +236,15 @@ impl C18 {
             "qt",
             self.qt
                 .iter()
-                .map(|(n, w, ps)| list(vec![st(n.clone()), boolean(*w), list(ps.iter().map(|p| st(p.clone())).collect())]))
+                .map(|q| {
+                    let mut v = vec![st(q.name.clone()), boolean(q.is_widget), list(q.props.iter().map(|p| st(p.clone())).collect())];
+                    match q.kind {
+                        Kind::Layout => v.push(atom("layout")),
+                        Kind::Action => v.push(atom("action")),
+                        Kind::Widget | Kind::Other => {}
+                    }
+                    list(v)
+                })
                 .collect(),
         )
     }
@@ -354,7 +440,7 @@ fn qml_text(f: &QmlFile) -> String {
     let binding = |o: &Obj| -> String {
         match &o.prop {
             Some(p) => {
-                let v = PROPS.iter().find(|(n, _)| n == p).map(|(_, v)| *v).unwrap_or("0");
+                let v = PROPS.iter().chain(EXTRA_PROPS.iter()).find(|(n, _)| n == p).map(|(_, v)| *v).unwrap_or("0");
                 format!(" {p}: {v} ")
             }
             None => String::new(),
@@ -843,7 +929,7 @@ fn qt_base_of(layout: &Layout, m: &Materialised, dir: &[String], imports: &[Impo
         .filter_map(|v| layout.dirs.iter().find(|d| &d.path == v))
         .flat_map(|d| d.files.iter().filter(|f| f.stem == ty).map(move |f| (d, f)))
         .collect();
-    if QT_CLASSES.contains(&ty) {
+    if is_table_class(ty) {
         let qt_imported = imports.iter().any(|i| matches!(i, Import::Named(n) if n == QT_MODULE));
         let others_named = imports.iter().any(|i| matches!(i, Import::Named(n) if n != QT_MODULE));
         return if holders.is_empty() && qt_imported && !others_named { Some(ty.to_owned()) } else { None };
@@ -904,6 +990,312 @@ fn gen_alias_layout(rng: &mut Rng) -> (Layout, Vec<Source>, Vec<String>) {
 /// the alias family is generated once finding F50 is listed (known or fixed) in KNOWN_FINDINGS.json
 fn f50_listed() -> bool {
     fs::read_to_string(concat!(env!("CARGO_MANIFEST_DIR"), "/../KNOWN_FINDINGS.json")).map(|t| t.contains("\"F50\"")).unwrap_or(false)
+}
+
+// ---------------------------------------------------------------------------------------------
+// the chain family: component -> component -> … -> Qt class
+
+#[derive(Clone, Copy, Debug, PartialEq, Eq)]
+enum ChainEnd {
+    Widget,
+    Layout,
+    Action,
+    Object,
+    Unknown,
+    Cycle,
+}
+
+/// one set of sources of a chain layout; `all_orders`: a model case for every permutation (else four orders)
+struct SourceSet {
+    srcs: Vec<Source>,
+    all_orders: bool,
+}
+
+/// A chain of `len` (1..=4) components `c0 -> c1 -> … -> c(len-1) -> END`: the root object of `c(i)` is of type `c(i+1)`,
+/// the root object of the last one is of a Qt widget class, a layout class, QAction, QObject, a name that does not
+/// resolve (no such type / a Qt class in a file that does not import the Qt module), or of one of the components of the
+/// chain again (self cycle, full cycle, a chain that leads into a cycle).  The components lie in one directory
+/// ("within"), each in a directory of its own imported by string from the directory before ("across": a document
+/// that imports the first directory sees `c0` only, every deeper link is resolved through the imports of the
+/// component that names it) or a mix of both; the imports are spelled in one of the ways of `spell`.  Every component
+/// file carries a binding on its root object and children (Qt widgets and other components of the chain it can see).
+/// Using documents: `Main` (instances of every visible component, each with bindings of properties of the Qt class the
+/// chain ends in — own and inherited ones alike —, interleaved with Qt widgets), `Root0` (`c0` as the ROOT object),
+/// `Bad` (one binding of a property the end class does not have), `Clean` (does not touch the chain) and, next to every
+/// component, `Use<c(i)>` (instances of `c(i)` as children); the component files themselves are sources too (`c(i)`
+/// is a document whose ROOT is `c(i+1)`).
+fn gen_chain_layout(rng: &mut Rng, k: usize, variant_offset: usize, qt: &[QtInfo]) -> (Layout, Vec<SourceSet>, Vec<String>) {
+    let len = 1 + k % 4;
+    let place_ix = (k / 4) % 3;
+    let place = ["within", "across", "mixed"][place_ix];
+    let end = [ChainEnd::Widget, ChainEnd::Layout, ChainEnd::Action, ChainEnd::Object, ChainEnd::Unknown, ChainEnd::Cycle][(k / 12) % 6];
+    let variant = (place_ix + variant_offset + k / 72) % 3;
+    let mut labels = vec!["chain".to_owned(), format!("chain:len{len}"), format!("chain:{place}")];
+    let qtw = || Import::Named(QT_MODULE.into());
+
+    // directories
+    let pool: [&[&str]; 8] = [&["a"], &["b"], &["common"], &["a", "sub"], &["b", "ui"], &["a", "sub", "Deep"], &["x1"], &["lib", "widgets"]];
+    let mut order: Vec<usize> = (0..pool.len()).collect();
+    rng.shuffle(&mut order);
+    let mut fresh = || -> Vec<String> { pool[order.pop().expect("enough directories")].iter().map(|s| s.to_string()).collect() };
+    let mut comp_dir: Vec<Vec<String>> = vec![fresh()];
+    for i in 1..len {
+        let same = match place {
+            "within" => true,
+            "across" => false,
+            // mixed: the first link crosses a directory boundary, the second one does not, the third one at random
+            _ => match i {
+                1 => false,
+                2 => true,
+                _ => rng.chance(1, 2),
+            },
+        };
+        let d = if same { comp_dir[i - 1].clone() } else { fresh() };
+        comp_dir.push(d);
+    }
+    let app_dir: Vec<String> = match place {
+        "within" => {
+            if rng.chance(2, 3) {
+                comp_dir[0].clone()
+            } else {
+                labels.push("chain:app-apart".into());
+                fresh()
+            }
+        }
+        "across" => fresh(),
+        _ => {
+            if rng.chance(1, 2) {
+                comp_dir[0].clone()
+            } else {
+                fresh()
+            }
+        }
+    };
+    let mut paths: Vec<Vec<String>> = vec![vec![]];
+    for d in comp_dir.iter().chain(std::iter::once(&app_dir)) {
+        for n in 1..=d.len() {
+            if !paths.contains(&d[..n].to_vec()) {
+                paths.push(d[..n].to_vec());
+            }
+        }
+    }
+
+    // names
+    let mut names: Vec<&str> = vec!["Base", "Fancy", "Panel", "MyBox", "Inner", "Outer", "Card", "Zed", "Item2", "SettingsForm", "E", "Tile"];
+    rng.shuffle(&mut names);
+    let stems: Vec<String> = names[..len].iter().map(|s| s.to_string()).collect();
+
+    // where the chain ends
+    let table = |n: &str| qt.iter().find(|q| q.name == n).expect("class of the table");
+    let mut no_qt_import_in_last = false;
+    let mut cycle_target: Option<usize> = None;
+    let (end_ty, end_label): (String, String) = match end {
+        ChainEnd::Widget => ((*rng.pick(&QT_CLASSES[..7])).to_owned(), "widget".into()),
+        ChainEnd::Layout => ((*rng.pick(&QT_EXTRA[..2])).to_owned(), "layout".into()),
+        ChainEnd::Action => ("QAction".to_owned(), "action".into()),
+        ChainEnd::Object => ("QObject".to_owned(), "object".into()),
+        ChainEnd::Unknown => {
+            if variant == 1 {
+                // a Qt class named in a file that does not import the Qt module
+                no_qt_import_in_last = true;
+                labels.push("chain:unknown:qt-module-not-imported".into());
+                ((*rng.pick(&QT_CLASSES[..7])).to_owned(), "unknown".into())
+            } else {
+                ("Missing".to_owned(), "unknown".into())
+            }
+        }
+        ChainEnd::Cycle => {
+            let j = match variant {
+                0 => 0,
+                1 => len - 1,
+                _ => {
+                    if len >= 2 {
+                        1 + rng.below(len - 1)
+                    } else {
+                        0
+                    }
+                }
+            };
+            cycle_target = Some(j);
+            labels.push(format!("chain:cyclelen{}", len - j));
+            if j > 0 {
+                labels.push("chain:into-cycle".into());
+            }
+            (stems[j].clone(), "cycle".into())
+        }
+    };
+    labels.push(format!("chain:end:{end_label}"));
+    let good_props: Vec<String> = match end {
+        ChainEnd::Widget | ChainEnd::Layout | ChainEnd::Action => table(&end_ty).props.clone(),
+        _ => vec![],
+    };
+    let all_props: Vec<&str> = PROPS.iter().chain(EXTRA_PROPS.iter()).map(|(n, _)| *n).collect();
+    let bad_props: Vec<&str> = all_props.iter().copied().filter(|p| !good_props.iter().any(|g| g == p)).collect();
+    let good = |rng: &mut Rng| -> Option<String> {
+        if good_props.is_empty() {
+            None
+        } else {
+            Some(rng.pick(&good_props).clone())
+        }
+    };
+    let qt_child = |rng: &mut Rng| -> Obj {
+        let ty = *rng.pick(&["QLabel", "QPushButton", "QFrame", "QLineEdit", "QGroupBox"]);
+        let prop = match rng.below(3) {
+            0 => None,
+            1 => Some((*rng.pick(&PROPS[..3])).0.to_owned()),
+            _ => Some(rng.pick(&table(ty).props).clone()),
+        };
+        Obj { ty: ty.to_owned(), prop }
+    };
+
+    let mut dirs: Vec<Dir> = paths.iter().map(|p| Dir { path: p.clone(), files: vec![] }).collect();
+    let push = |dirs: &mut Vec<Dir>, d: &[String], f: QmlFile| dirs.iter_mut().find(|x| x.path == d).unwrap().files.push(f);
+
+    // the components
+    for i in 0..len {
+        let (next_ty, next_dir): (String, Option<Vec<String>>) = if i + 1 < len {
+            (stems[i + 1].clone(), Some(comp_dir[i + 1].clone()))
+        } else {
+            (end_ty.clone(), cycle_target.map(|j| comp_dir[j].clone()))
+        };
+        let last_without_qt = no_qt_import_in_last && i == len - 1;
+        let mut imports = if last_without_qt { vec![] } else { vec![qtw()] };
+        let mut sees: Vec<Vec<String>> = vec![comp_dir[i].clone()];
+        if let Some(nd) = &next_dir {
+            if *nd != comp_dir[i] {
+                let (segs, how) = spell(rng, &comp_dir[i], nd, &paths);
+                labels.push(format!("spell:{how}"));
+                // the Qt module first or last: the order of the imports must not matter here
+                if rng.chance(1, 4) {
+                    imports.insert(0, Import::Dir(segs));
+                } else {
+                    imports.push(Import::Dir(segs));
+                }
+                sees.push(nd.clone());
+            }
+        }
+        let others: Vec<usize> = (0..len).filter(|&j| j != i && sees.contains(&comp_dir[j])).collect();
+        let n_children = 1 + rng.below(3);
+        let mut children = vec![];
+        for _ in 0..n_children {
+            if !others.is_empty() && rng.chance(1, 2) {
+                children.push(Obj { ty: stems[*rng.pick(&others)].clone(), prop: good(rng) });
+            } else if !last_without_qt {
+                children.push(qt_child(rng));
+            }
+        }
+        let root = Obj { ty: next_ty, prop: if rng.chance(2, 3) { good(rng) } else { None } };
+        push(&mut dirs, &comp_dir[i], QmlFile { stem: stems[i].clone(), has_root: true, imports, root, children });
+    }
+
+    // the using documents
+    let mut app_imports = vec![qtw()];
+    if app_dir != comp_dir[0] {
+        let (segs, how) = spell(rng, &app_dir, &comp_dir[0], &paths);
+        labels.push(format!("spell:{how}"));
+        app_imports.push(Import::Dir(segs));
+    }
+    let visible: Vec<usize> = (0..len).filter(|&j| comp_dir[j] == app_dir || comp_dir[j] == comp_dir[0]).collect();
+    let mut main_children = vec![];
+    for &j in &visible {
+        main_children.push(Obj { ty: stems[j].clone(), prop: good(rng) });
+        if rng.chance(1, 2) {
+            main_children.push(qt_child(rng));
+        }
+        main_children.push(Obj { ty: stems[j].clone(), prop: good(rng) });
+    }
+    // X, Y, X: the first component once more after all the others
+    main_children.push(Obj { ty: stems[visible[0]].clone(), prop: None });
+    for p in &good_props {
+        labels.push(format!("chain:prop:{p}"));
+    }
+    push(
+        &mut dirs,
+        &app_dir,
+        QmlFile {
+            stem: "Main".into(),
+            has_root: true,
+            imports: app_imports.clone(),
+            root: Obj { ty: (*rng.pick(&["QDialog", "QWidget", "QGroupBox", "QFrame"])).to_owned(), prop: if rng.chance(1, 2) { Some("windowTitle".into()) } else { None } },
+            children: main_children,
+        },
+    );
+    push(
+        &mut dirs,
+        &app_dir,
+        QmlFile {
+            stem: "Root0".into(),
+            has_root: true,
+            imports: app_imports.clone(),
+            root: Obj { ty: stems[0].clone(), prop: good(rng) },
+            children: vec![Obj { ty: "QLabel".into(), prop: Some("text".into()) }, Obj { ty: stems[0].clone(), prop: good(rng) }, qt_child(rng)],
+        },
+    );
+    let bad_prop = (*rng.pick(&bad_props)).to_owned();
+    labels.push(format!("chain:bad-prop:{bad_prop}"));
+    push(
+        &mut dirs,
+        &app_dir,
+        QmlFile {
+            stem: "Bad".into(),
+            has_root: true,
+            imports: app_imports.clone(),
+            root: Obj { ty: "QWidget".into(), prop: None },
+            children: vec![
+                Obj { ty: stems[*rng.pick(&visible)].clone(), prop: good(rng) },
+                Obj { ty: stems[*rng.pick(&visible)].clone(), prop: Some(bad_prop) },
+                Obj { ty: "QLabel".into(), prop: None },
+            ],
+        },
+    );
+    push(
+        &mut dirs,
+        &app_dir,
+        QmlFile {
+            stem: "Clean".into(),
+            has_root: true,
+            imports: vec![qtw()],
+            root: Obj { ty: "QDialog".into(), prop: Some("windowTitle".into()) },
+            children: vec![Obj { ty: "QLabel".into(), prop: Some("text".into()) }, Obj { ty: "QPushButton".into(), prop: Some("flat".into()) }],
+        },
+    );
+    let mut users: Vec<Source> = vec![];
+    for i in 0..len {
+        let stem = format!("Use{}", stems[i]);
+        push(
+            &mut dirs,
+            &comp_dir[i],
+            QmlFile {
+                stem: stem.clone(),
+                has_root: true,
+                imports: vec![qtw()],
+                root: Obj { ty: "QWidget".into(), prop: None },
+                children: vec![Obj { ty: stems[i].clone(), prop: good(rng) }, Obj { ty: stems[i].clone(), prop: good(rng) }, Obj { ty: "QPushButton".into(), prop: Some("text".into()) }],
+            },
+        );
+        users.push((comp_dir[i].clone(), stem));
+    }
+
+    // sources: using documents and component files together; every file is a source of exactly one set
+    let app = |s: &str| -> Source { (app_dir.clone(), s.to_owned()) };
+    let comp = |i: usize| -> Source { (comp_dir[i].clone(), stems[i].clone()) };
+    let mut first = vec![app("Main"), app("Bad"), comp(0)];
+    first.push(if len > 1 { comp(len - 1) } else { app("Root0") });
+    let mut rest: Vec<Source> = vec![app("Clean")];
+    if len > 1 {
+        rest.push(app("Root0"));
+    }
+    rest.extend((1..len.saturating_sub(1)).map(comp));
+    rest.extend(users);
+    rng.shuffle(&mut first);
+    rng.shuffle(&mut rest);
+    let mut sets = vec![SourceSet { srcs: first, all_orders: true }];
+    for chunk in rest.chunks(4) {
+        sets.push(SourceSet { srcs: chunk.to_vec(), all_orders: false });
+    }
+    labels.sort();
+    labels.dedup();
+    (Layout { dirs, links: vec![], flinks: vec![] }, sets, labels)
 }
 
 fn permutations<T: Clone>(xs: &[T]) -> Vec<Vec<T>> {
@@ -1000,6 +1392,7 @@ struct SrcOut {
     name: String,
     body: Vec<Sexp>,
     accepted: bool,
+    built: bool,
     customs: Vec<(String, String, String)>,
     /// diagnostic messages (`None`: not loaded / syntax error)
     diags: Option<Vec<String>>,
@@ -1019,7 +1412,18 @@ fn rel_name(p: &[String]) -> String {
 }
 
 impl C18 {
+    /// One in-process run per (layout, ORDERED source list) and process: the requests on one layout (model case, the
+    /// oracles, every order the permutation oracle compares) share it.
     fn run_real(&self, layout: &Layout, srcs: &[Source]) -> Result<RunOut, Sexp> {
+        let key = format!("{} {}", layout.to_sexp().render(), sources_sexp(srcs).render());
+        let cell = {
+            let mut m = self.real_runs.lock().unwrap();
+            m.entry(key).or_insert_with(|| Arc::new(OnceLock::new())).clone()
+        };
+        cell.get_or_init(|| self.run_real_uncached(layout, srcs)).clone()
+    }
+
+    fn run_real_uncached(&self, layout: &Layout, srcs: &[Source]) -> Result<RunOut, Sexp> {
         let m = Materialised::new(layout);
         let root_str = m.root.as_str().to_owned();
         let strip = |s: &str| s.replace(&root_str, "");
@@ -1067,12 +1471,12 @@ impl C18 {
             let name = if p.is_empty() { format!("{s}.qml") } else { format!("{}/{s}.qml", rel_name(p)) };
             // like generate_ui_file: the document populate_directories has read
             let Some(doc) = cache.get(path) else {
-                outputs.push(SrcOut { name, body: vec![atom("not-loaded")], accepted: false, customs: vec![], diags: None, widgets: vec![] });
+                outputs.push(SrcOut { name, body: vec![atom("not-loaded")], accepted: false, built: false, customs: vec![], diags: None, widgets: vec![] });
                 continue;
             };
             let t = env::translate_doc(&tm, doc, Mode::Generate);
             if t.syntax_errors > 0 {
-                outputs.push(SrcOut { name, body: vec![atom("syntax-error")], accepted: false, customs: vec![], diags: None, widgets: vec![] });
+                outputs.push(SrcOut { name, body: vec![atom("syntax-error")], accepted: false, built: false, customs: vec![], diags: None, widgets: vec![] });
                 continue;
             }
             let mut msgs: Vec<String> = t.diags.iter().map(|d| strip(&d.message)).collect();
@@ -1082,17 +1486,23 @@ impl C18 {
             let mut customs = vec![];
             if let Some(ui) = &t.ui {
                 let ui = xml::strip_indent(&xml::parse(ui).expect("well-formed ui"));
+                // an `<action>` carries no class: uic makes it a QAction whatever the component was called
+                let class_of = |e: &xml::Element| -> String {
+                    if e.name == "action" { "QAction".to_owned() } else { e.attr("class").unwrap_or("?").to_owned() }
+                };
                 let widget = |e: &xml::Element| -> Sexp {
-                    let mut v = vec![st(e.attr("class").unwrap_or("?"))];
+                    let mut v = vec![st(class_of(e))];
                     v.extend(e.children_named("property").map(|p| st(p.attr("name").unwrap_or("?"))));
                     list(v)
                 };
                 if let Some(rw) = ui.child("widget") {
+                    // the root widget, then its objects in document order: widgets, layouts and actions
+                    let kids: Vec<&xml::Element> = rw.elems().filter(|e| matches!(e.name.as_str(), "widget" | "layout" | "action")).collect();
                     widgets.push(widget(rw));
-                    widgets.extend(rw.children_named("widget").map(widget));
-                    for e in std::iter::once(rw).chain(rw.children_named("widget")) {
+                    widgets.extend(kids.iter().map(|e| widget(e)));
+                    for e in std::iter::once(rw).chain(kids.iter().copied()) {
                         widget_props.push((
-                            e.attr("class").unwrap_or("?").to_owned(),
+                            class_of(e),
                             e.children_named("property").map(|p| p.attr("name").unwrap_or("?").to_owned()).collect(),
                         ));
                     }
@@ -1115,7 +1525,7 @@ impl C18 {
                     customs.iter().map(|(a, b, c)| list(vec![st(a.clone()), st(b.clone()), st(c.clone())])).collect(),
                 ),
             ];
-            outputs.push(SrcOut { name, body, accepted: t.accepted(), customs, diags: Some(diag_msgs), widgets: widget_props });
+            outputs.push(SrcOut { name, body, accepted: t.accepted(), built: t.built, customs, diags: Some(diag_msgs), widgets: widget_props });
         }
         Ok(RunOut { dirs, modules, outputs })
     }
@@ -1320,6 +1730,360 @@ fn run_cli_flags(bin: &std::path::Path, layout: &Layout, srcs: &[Source], flags:
     (if run.killed.is_some() { -2 } else { run.code.unwrap_or(-1) }, written_ui(layout, &m))
 }
 
+// ---------------------------------------------------------------------------------------------
+// the file-system judge (oracles `c18-judge`, `c18-judge-all`)
+//
+// What a document must come to, decided from the generated layout and the REAL file system only — neither the type map
+// of the code under test nor the Lean model is asked.  The judge follows names the way a reader of the files would:
+// a type `X` is the Qt class `X` (if the file imports the Qt module) or the component `X.qml` of a directory the file
+// sees; a component is what its own root object is, seen from the component's file.  It refuses to judge (and says so)
+// wherever that reading is not unambiguous: the same name in two visible directories, a component called like a Qt
+// class, a file without root object, an unknown named module on the way, a Qt class outside the measured table.
+
+enum Res<'a> {
+    Qt(&'a QtInfo),
+    Comp(Vec<String>, &'a QmlFile),
+    Unknown,
+    Skip(&'static str),
+}
+
+enum End<'a> {
+    Qt(&'a QtInfo),
+    /// the name that did not resolve (root type of the last component reached)
+    Unknown(String),
+    Cycle,
+    Skip(&'static str),
+}
+
+/// what the judge expects of one document
+#[derive(Debug)]
+struct Expect {
+    built: bool,
+    /// sorted diagnostic messages
+    diags: Vec<String>,
+    /// the objects of the form, root first, then the children that resolve in document order: class as the `.ui`
+    /// shows it and the binding that must reach the `.ui`
+    objects: Vec<(String, Vec<String>)>,
+    /// `<customwidgets>`: (class, extends, header stem) — header stem is the class name, the file-name rule is applied later
+    customs: BTreeSet<(String, String)>,
+}
+
+impl Expect {
+    fn accepted(&self) -> bool {
+        self.built && self.diags.is_empty()
+    }
+}
+
+struct Judge<'a> {
+    qt: &'a [QtInfo],
+    qt_names: &'a BTreeSet<String>,
+    layout: &'a Layout,
+    m: &'a Materialised,
+}
+
+struct Seen {
+    /// canonical directories (own one first), without repetition
+    dirs: Vec<Vec<String>>,
+    /// string imports that are no directory
+    dead_imports: usize,
+    qt_imported: bool,
+    other_named: usize,
+}
+
+impl<'a> Judge<'a> {
+    /// `base`: the directory of the file as the file is reached (for a source: as named on the command line)
+    fn sees(&self, base: &camino::Utf8Path, own: &[String], imports: &[Import]) -> Seen {
+        let mut s = Seen { dirs: vec![own.to_vec()], dead_imports: 0, qt_imported: false, other_named: 0 };
+        for i in imports {
+            match i {
+                Import::Named(n) if n == QT_MODULE => s.qt_imported = true,
+                Import::Named(_) => s.other_named += 1,
+                Import::Dir(segs) => {
+                    let target = base.join(segs.join("/"));
+                    match (target.is_dir(), self.m.rel_of(&target)) {
+                        (true, Some(rel)) => {
+                            if !s.dirs.contains(&rel) {
+                                s.dirs.push(rel);
+                            }
+                        }
+                        _ => s.dead_imports += 1,
+                    }
+                }
+            }
+        }
+        s
+    }
+
+    fn resolve(&self, seen: &Seen, ty: &str) -> Res<'a> {
+        let holders: Vec<(Vec<String>, &'a QmlFile)> = seen
+            .dirs
+            .iter()
+            .flat_map(|v| self.layout.files_of(v).into_iter().filter(|(stem, _)| stem == ty).map(move |(_, f)| (v.clone(), f)))
+            .collect();
+        let is_qt = self.qt_names.contains(ty);
+        if !holders.is_empty() && is_qt {
+            return Res::Skip("component named like a Qt class");
+        }
+        match holders.as_slice() {
+            [] => {}
+            [(d, f)] => return if f.has_root { Res::Comp(d.clone(), f) } else { Res::Skip("file without root object") },
+            _ => return Res::Skip("same name in several visible directories"),
+        }
+        if !is_qt || !seen.qt_imported {
+            return Res::Unknown;
+        }
+        match self.qt.iter().find(|q| q.name == ty) {
+            Some(q) => Res::Qt(q),
+            None => Res::Skip("Qt class outside the measured table"),
+        }
+    }
+
+    /// where the chain of root types that starts at component `f` of directory `d` ends
+    fn chain_end(&self, d: &[String], f: &'a QmlFile) -> End<'a> {
+        let mut visited: Vec<(Vec<String>, String)> = vec![(d.to_vec(), f.stem.clone())];
+        let (mut d, mut f) = (d.to_vec(), f);
+        loop {
+            let seen = self.sees(&self.m.dir(&d), &d, &f.imports);
+            if seen.other_named > 0 {
+                return End::Skip("unknown named module imported by a component");
+            }
+            match self.resolve(&seen, &f.root.ty) {
+                Res::Qt(q) => return End::Qt(q),
+                Res::Unknown => return End::Unknown(f.root.ty.clone()),
+                Res::Skip(w) => return End::Skip(w),
+                Res::Comp(d2, f2) => {
+                    let key = (d2.clone(), f2.stem.clone());
+                    if visited.contains(&key) {
+                        return End::Cycle;
+                    }
+                    visited.push(key);
+                    d = d2;
+                    f = f2;
+                }
+            }
+        }
+    }
+
+    /// `p`: directory of the source as named on the command line, `rp`: its canonical form
+    fn expect(&self, p: &[String], rp: &[String], f: &'a QmlFile) -> Result<Expect, &'static str> {
+        let seen = self.sees(&self.m.dir(p), rp, &f.imports);
+        let mut diags: Vec<String> = vec!["module not found".to_owned(); seen.dead_imports + seen.other_named];
+        let mut e = Expect { built: false, diags: vec![], objects: vec![], customs: BTreeSet::new() };
+        let root = match self.resolve(&seen, &f.root.ty) {
+            Res::Skip(w) => return Err(w),
+            Res::Unknown => {
+                // no object tree, nothing else is looked at
+                diags.push(format!("unknown object type: {}", f.root.ty));
+                diags.sort();
+                e.diags = diags;
+                return Ok(e);
+            }
+            r => r,
+        };
+        e.built = true;
+        let mut objs: Vec<(&Obj, Res<'a>, bool)> = vec![(&f.root, root, true)];
+        for c in &f.children {
+            match self.resolve(&seen, &c.ty) {
+                Res::Skip(w) => return Err(w),
+                Res::Unknown => diags.push(format!("unknown object type: {}", c.ty)),
+                r => objs.push((c, r, false)),
+            }
+        }
+        for (o, r, is_root) in objs {
+            let end = match r {
+                Res::Qt(q) => End::Qt(q),
+                Res::Comp(d, cf) => {
+                    // extends: the type name written as the root object of the component's own file
+                    e.customs.insert((o.ty.clone(), cf.root.ty.clone()));
+                    self.chain_end(&d, cf)
+                }
+                Res::Unknown | Res::Skip(_) => unreachable!(),
+            };
+            if let End::Skip(w) = end {
+                return Err(w);
+            }
+            let mut bound = vec![];
+            if let Some(p) = &o.prop {
+                match &end {
+                    End::Qt(q) if q.props.contains(p) => bound.push(p.clone()),
+                    End::Qt(_) | End::Cycle => diags.push(format!("unknown property of class '{}': {p}", o.ty)),
+                    End::Unknown(n) => diags.push(format!("property resolution failed: invalid type reference '{n}'")),
+                    End::Skip(_) => unreachable!(),
+                }
+            }
+            let kind = match &end {
+                End::Qt(q) => q.kind,
+                _ => Kind::Other,
+            };
+            if is_root {
+                if kind != Kind::Widget {
+                    diags.push(format!("class '{}' is not a QWidget", o.ty));
+                }
+            } else if kind == Kind::Other {
+                diags.push(format!("class '{}' is not a QAction, QLayout, nor QWidget", o.ty));
+            }
+            let shown = if kind == Kind::Action && !is_root { "QAction".to_owned() } else { o.ty.clone() };
+            e.objects.push((shown, bound));
+        }
+        diags.sort();
+        e.diags = diags;
+        Ok(e)
+    }
+}
+
+fn strs_sexp(tag: &str, v: &[String]) -> Sexp {
+    node(tag, v.iter().map(|s| st(s.clone())).collect())
+}
+
+impl C18 {
+    /// `strict`: a document the judge cannot judge is a failure (the chain family and the corpus are unambiguous by
+    /// construction)
+    fn judge(&self, layout: &Layout, srcs: &[Source], strict: bool) -> Sexp {
+        if !layout.flinks.is_empty() {
+            return node("ok", vec![node("not-judged", vec![atom("file-aliases")])]);
+        }
+        let r = match self.run_real(layout, srcs) {
+            Ok(r) => r,
+            Err(e) => return node("violation", vec![e]),
+        };
+        let m = Materialised::new(layout);
+        let j = Judge { qt: &self.qt, qt_names: &self.qt_names, layout, m: &m };
+        // (name of the .ui below the root, expectation) per source; None: not judged
+        let mut verdicts: Vec<Option<(String, Expect)>> = vec![];
+        let (mut n_acc, mut n_rej, mut n_skip) = (0usize, 0usize, 0usize);
+        for ((p, s), o) in srcs.iter().zip(&r.outputs) {
+            let Some(rp) = m.rel_of(&m.dir(p)) else { return node("bad-request", vec![]) };
+            let Some(f) = layout.dirs.iter().find(|d| d.path == rp).and_then(|d| d.files.iter().find(|f| &f.stem == s)) else {
+                return node("bad-request", vec![]);
+            };
+            let e = match j.expect(p, &rp, f) {
+                Ok(e) => e,
+                Err(why) => {
+                    if strict {
+                        return node("violation", vec![atom("not-judged"), st(o.name.clone()), st(why)]);
+                    }
+                    n_skip += 1;
+                    verdicts.push(None);
+                    continue;
+                }
+            };
+            let Some(diags) = &o.diags else {
+                return node("violation", vec![atom("source-not-translated"), st(o.name.clone())]);
+            };
+            // (1) exactly the diagnostics the files call for: a document in which everything resolves, every chain ends
+            //     in a class of the right kind and every bound property exists is ACCEPTED; a fault is diagnosed, once
+            if *diags != e.diags || o.built != e.built {
+                let what = if e.accepted() { "good-document-rejected" } else if o.accepted { "faulty-document-accepted" } else { "diagnostics" };
+                return node(
+                    "violation",
+                    vec![
+                        atom(what),
+                        st(o.name.clone()),
+                        node("expected", vec![node("built", vec![boolean(e.built)]), strs_sexp("diags", &e.diags)]),
+                        node("got", vec![node("built", vec![boolean(o.built)]), strs_sexp("diags", diags)]),
+                    ],
+                );
+            }
+            if o.accepted != e.accepted() {
+                return node("violation", vec![atom("accepted"), st(o.name.clone()), boolean(o.accepted)]);
+            }
+            if e.accepted() {
+                // (2) every object is in the form under its class with the binding it was given
+                let got: Vec<(String, Vec<String>)> = o.widgets.clone();
+                if got != e.objects {
+                    let show = |v: &[(String, Vec<String>)]| -> Vec<Sexp> {
+                        v.iter().map(|(c, ps)| list(std::iter::once(st(c.clone())).chain(ps.iter().map(|p| st(p.clone()))).collect())).collect()
+                    };
+                    return node(
+                        "violation",
+                        vec![atom("objects-in-ui"), st(o.name.clone()), node("expected", show(&e.objects)), node("got", show(&got))],
+                    );
+                }
+                // (3) <customwidgets>: the components instantiated, each once, extends = its own root type, header by rule
+                if let Some(v) = customs_violation(&o.name, &o.customs, &e.customs, true) {
+                    return v;
+                }
+                n_acc += 1;
+            } else {
+                n_rej += 1;
+            }
+            let ui = uiFileNameLower(s);
+            verdicts.push(Some((if rp.is_empty() { ui } else { format!("{}/{ui}", rel_name(&rp)) }, e)));
+        }
+        // (4) the real command line, the sources in sorted order (the run the preflight made)
+        let mut sorted: Vec<Source> = srcs.to_vec();
+        sorted.sort();
+        sorted.dedup();
+        let (code, written) = self.run_cli_cached(layout, &sorted, &[]);
+        if code != 0 && code != 1 {
+            return node("violation", vec![atom("cli-exit-status"), atom(code.to_string())]);
+        }
+        let judged: Vec<&(String, Expect)> = verdicts.iter().flatten().collect();
+        for (ui, e) in &judged {
+            match (e.accepted(), written.get(ui)) {
+                (true, None) => return node("violation", vec![atom("cli-good-document-not-written"), st(ui.clone()), node("exit", vec![atom(code.to_string())])]),
+                (false, Some(_)) => {
+                    // another source may write the same name (Foo.qml / foo.qml): only a name no accepted source owns counts
+                    if !judged.iter().any(|(u2, e2)| u2 == ui && e2.accepted()) && verdicts.iter().all(|v| v.is_some()) {
+                        return node("violation", vec![atom("cli-faulty-document-written"), st(ui.clone())]);
+                    }
+                }
+                (true, Some(text)) => {
+                    let Ok(x) = xml::parse(text) else { return node("violation", vec![atom("ill-formed-ui"), st(ui.clone())]) };
+                    let x = xml::strip_indent(&x);
+                    let mut customs = vec![];
+                    if let Some(cw) = x.child("customwidgets") {
+                        for c in cw.children_named("customwidget") {
+                            let g = |n: &str| c.child(n).map(|e| e.text()).unwrap_or_default();
+                            customs.push((g("class"), g("extends"), g("header")));
+                        }
+                    }
+                    if let Some(v) = customs_violation(ui, &customs, &e.customs, true) {
+                        return v;
+                    }
+                }
+                (false, None) => {}
+            }
+        }
+        if judged.iter().any(|(_, e)| !e.accepted()) && code != 1 {
+            return node("violation", vec![atom("cli-exit-status-with-faulty-source"), atom(code.to_string())]);
+        }
+        if n_skip == 0 && judged.iter().all(|(_, e)| e.accepted()) && code != 0 {
+            return node("violation", vec![atom("cli-exit-status-all-good"), atom(code.to_string())]);
+        }
+        node(
+            "ok",
+            vec![node("accepted", vec![atom(n_acc.to_string())]), node("rejected", vec![atom(n_rej.to_string())]), node("not-judged", vec![atom(n_skip.to_string())])],
+        )
+    }
+}
+
+#[allow(non_snake_case)]
+fn uiFileNameLower(stem: &str) -> String {
+    format!("{}.ui", stem.to_ascii_lowercase())
+}
+
+/// `<customwidgets>` against the judge's set: no class twice, the same classes, `extends` as written in the component's
+/// file, header = `<class>.h` lower-cased (`lower`) or as it is
+fn customs_violation(doc: &str, got: &[(String, String, String)], want: &BTreeSet<(String, String)>, lower: bool) -> Option<Sexp> {
+    let mut seen = BTreeSet::new();
+    for (class, _, _) in got {
+        if !seen.insert(class.clone()) {
+            return Some(node("violation", vec![atom("listed-twice"), st(doc), st(class.clone())]));
+        }
+    }
+    let got_set: BTreeSet<(String, String, String)> = got.iter().cloned().collect();
+    let want_set: BTreeSet<(String, String, String)> = want
+        .iter()
+        .map(|(c, x)| (c.clone(), x.clone(), if lower { format!("{}.h", c.to_ascii_lowercase()) } else { format!("{c}.h") }))
+        .collect();
+    if got_set != want_set {
+        let show = |v: &BTreeSet<(String, String, String)>| -> Vec<Sexp> { v.iter().map(|(a, b, c)| list(vec![st(a.clone()), st(b.clone()), st(c.clone())])).collect() };
+        return Some(node("violation", vec![atom("customwidgets"), st(doc), node("expected", show(&want_set)), node("got", show(&got_set))]));
+    }
+    None
+}
+
 fn run_out_sexp(r: &RunOut) -> Sexp {
     node(
         "c18",
@@ -1380,7 +2144,7 @@ impl Stream for C18 {
                 cases.push(Case { kind: "spec", labels: labels.clone(), request: node("spec-c18-dirs", args.clone()) });
                 cases.push(Case { kind: "model", labels: labels.clone(), request: node("c18-cliout", args.clone()) });
             }
-            for tag in ["c18-once", "c18-resolve", "c18-reach", "c18-exact", "c18-perms"] {
+            for tag in ["c18-once", "c18-resolve", "c18-reach", "c18-exact", "c18-perms", "c18-judge"] {
                 cases.push(Case { kind: "oracle", labels: labels.clone(), request: node(tag, args.clone()) });
             }
             if k % 3 == 0 {
@@ -1397,6 +2161,51 @@ impl Stream for C18 {
                 let args = vec![qt.clone(), layout.to_sexp(), sources_sexp(&srcs)];
                 for tag in ["c18-resolve", "c18-perms", "c18-once"] {
                     cases.push(Case { kind: "oracle", labels: labels.clone(), request: node(tag, args.clone()) });
+                }
+            }
+        }
+        // chains of components (length 1..=4; within one directory / across directories / mixed; ending in a widget, a
+        // layout, an action, QObject, nothing, or a cycle): model + the file-system judge + the other oracles
+        // (72 = every combination of length, placement and end once; which cycle / unknown variant meets which placement
+        // first depends on the seed)
+        let n_chain = if thorough { 432 } else { 72 };
+        let variant_offset = Rng::fork(seed, "c18-chain-variant", 0).below(3);
+        for k in 0..n_chain {
+            let mut r2 = Rng::fork(seed, "c18-chain", k as u64);
+            let (layout, sets, labels) = gen_chain_layout(&mut r2, k, variant_offset, &self.qt);
+            let tree = layout.to_sexp();
+            for (si, set) in sets.iter().enumerate() {
+                let mut labels = labels.clone();
+                labels.push(format!("sources{}", set.srcs.len()));
+                let perms = if set.all_orders {
+                    permutations(&set.srcs)
+                } else {
+                    let mut v = vec![set.srcs.clone(), set.srcs.iter().rev().cloned().collect::<Vec<_>>()];
+                    for _ in 0..2 {
+                        let mut p = set.srcs.clone();
+                        r2.shuffle(&mut p);
+                        v.push(p);
+                    }
+                    v.dedup();
+                    v
+                };
+                for p in &perms {
+                    cases.push(Case { kind: "model", labels: labels.clone(), request: node("c18", vec![qt.clone(), tree.clone(), sources_sexp(p)]) });
+                }
+                let args = vec![qt.clone(), tree.clone(), sources_sexp(&set.srcs)];
+                cases.push(Case { kind: "spec", labels: labels.clone(), request: node("spec-c18-dirs", args.clone()) });
+                cases.push(Case { kind: "model", labels: labels.clone(), request: node("c18-cliout", args.clone()) });
+                for tag in ["c18-judge-all", "c18-once", "c18-resolve", "c18-reach", "c18-exact"] {
+                    cases.push(Case { kind: "oracle", labels: labels.clone(), request: node(tag, args.clone()) });
+                }
+                if set.all_orders {
+                    cases.push(Case { kind: "oracle", labels: labels.clone(), request: node("c18-perms", args.clone()) });
+                }
+                if (k + si) % 4 == 0 {
+                    cases.push(Case { kind: "oracle", labels: labels.clone(), request: node("c18-nolower", args.clone()) });
+                }
+                if (k + si) % 12 == 1 {
+                    cases.push(Case { kind: "oracle", labels: labels.clone(), request: node("c18-cli6", args.clone()) });
                 }
             }
         }
@@ -1431,6 +2240,7 @@ impl Stream for C18 {
             cases.push(Case { kind: "oracle", labels: labels.clone(), request: node("c18-reach", args.clone()) });
             cases.push(Case { kind: "oracle", labels: labels.clone(), request: node("c18-once", args.clone()) });
             cases.push(Case { kind: "oracle", labels: labels.clone(), request: node("c18-resolve", args.clone()) });
+            cases.push(Case { kind: "oracle", labels: labels.clone(), request: node("c18-judge", args.clone()) });
             if cases.len() % 5 == 0 {
                 cases.push(Case { kind: "oracle", labels: labels.clone(), request: node("c18-nolower", args.clone()) });
             }
@@ -1567,9 +2377,9 @@ impl Stream for C18 {
                             }
                         }
                         // an instance of a component accepts the properties of the component's (Qt) base class
-                        if let (true, Some(prop)) = (has_file && !QT_CLASSES.contains(&used.ty.as_str()), &used.prop) {
+                        if let (true, Some(prop)) = (has_file && !is_table_class(&used.ty), &used.prop) {
                             if let Some(base) = qt_base_of(&layout, &m, &rp, &f.imports, &used.ty, 0) {
-                                let has_prop = self.qt.iter().any(|(n, _, ps)| *n == base && ps.contains(prop));
+                                let has_prop = self.qt.iter().any(|q| q.name == base && q.props.contains(prop));
                                 if has_prop {
                                     checked += 1;
                                     if diags.iter().any(|d| d.contains("unknown property") && d.contains(&format!("'{}'", used.ty)) && d.ends_with(&format!(": {prop}"))) {
@@ -1578,7 +2388,10 @@ impl Stream for C18 {
                                             vec![atom("base-class-property-rejected"), st(o.name.clone()), st(used.ty.clone()), st(base), st(prop.clone())],
                                         );
                                     }
-                                    if o.accepted && !o.widgets.iter().any(|(c, ps)| *c == used.ty && ps.contains(prop)) {
+                                    // an instance of an action component is written as a plain `<action>`
+                                    let is_action = self.qt.iter().any(|q| q.name == base && q.kind == Kind::Action);
+                                    let shown = if is_action { "QAction" } else { used.ty.as_str() };
+                                    if o.accepted && !o.widgets.iter().any(|(c, ps)| c == shown && ps.contains(prop)) {
                                         return node(
                                             "violation",
                                             vec![atom("base-class-property-not-in-ui"), st(o.name.clone()), st(used.ty.clone()), st(base), st(prop.clone())],
@@ -1591,6 +2404,8 @@ impl Stream for C18 {
                 }
                 node("ok", vec![atom(checked.to_string())])
             }
+            "c18-judge" => self.judge(&layout, &srcs, false),
+            "c18-judge-all" => self.judge(&layout, &srcs, true),
             "c18-nolower" => {
                 let r = match self.run_real(&layout, &srcs) {
                     Ok(r) => r,
@@ -1778,7 +2593,7 @@ impl Stream for C18 {
                         }
                     }
                     for used in std::iter::once(&f.root).chain(&f.children) {
-                        if !QT_CLASSES.contains(&used.ty.as_str()) && !seen.contains(&used.ty) {
+                        if !is_table_class(&used.ty) && !seen.contains(&used.ty) {
                             return node("violation", vec![atom("not-listed"), st(o.name.clone()), st(used.ty.clone())]);
                         }
                     }
